@@ -22,6 +22,9 @@ type Target struct {
 	Status   int  `json:"status"`
 	Allow    bool `json:"allow,omitempty"` // task-level allow_failure: the target succeeds anyway
 	Side     bool `json:"side,omitempty"`  // pipeline only: an independent stage that succeeds and finishes last
+	// NestedAllowed (pipeline only): a further stage runs a nested pipeline that fails and has allow_failure: that does
+	// not make the target fail
+	NestedAllowed bool `json:"nested_allowed,omitempty"`
 }
 
 // TargetsCase is an argv of 1..4 targets in order.
@@ -69,6 +72,12 @@ func runTargets(c TargetsCase, dir string) (vs []Violation) {
 				side := fmt.Sprintf("side%d", i)
 				tasks = tasks.Set(side, gen.Map{{K: "command", V: gen.List{fmt.Sprintf("sleep 0.25; printf 'SIDE:%d\\n' >> %s", i, trace)}}})
 				stages = append(stages, gen.Map{{K: "name", V: fmt.Sprintf("c%d", i)}, {K: "task", V: side}})
+			}
+			if tg.NestedAllowed {
+				in := fmt.Sprintf("innerfail%d", i)
+				tasks = tasks.Set(in, gen.Map{{K: "command", V: gen.List{"exit 7"}}})
+				pipes = pipes.Set(fmt.Sprintf("inner%d", i), gen.List{gen.Map{{K: "name", V: "x"}, {K: "task", V: in}}})
+				stages = append(stages, gen.Map{{K: "name", V: fmt.Sprintf("n%d", i)}, {K: "pipeline", V: fmt.Sprintf("inner%d", i)}, {K: "allow_failure", V: true}})
 			}
 			pipes = pipes.Set(pn, stages)
 			argv = append(argv, pn)
@@ -188,6 +197,7 @@ func TestTargets(t *testing.T) {
 		for i := 0; i < n; i++ {
 			tg := Target{Pipeline: !onlyTasks && rapid.Bool().Draw(rt, "pipeline")}
 			tg.Side = tg.Pipeline && rapid.Bool().Draw(rt, "side")
+			tg.NestedAllowed = tg.Pipeline && rapid.IntRange(0, 2).Draw(rt, "nested-allowed-failure") == 0
 			if rapid.IntRange(0, 2).Draw(rt, "fails") == 0 {
 				tg.Status = rapid.IntRange(1, 255).Draw(rt, "status")
 				tg.Allow = rapid.IntRange(0, 3).Draw(rt, "allow") == 0
